@@ -9,7 +9,7 @@ forbids - C09).
 SEQ_SOURCES = ["seq/main.cpp", "seq/m_map.cpp", "seq/m_scan.cpp", "seq/m_phantom.cpp", "seq/m_iscan.cpp",
                "seq/m_nodeinfo.cpp", "seq/m_storage.cpp", "seq/m_value.cpp", "seq/m_memusage.cpp", "common/allocreg.cpp"]
 CONC_SOURCES = ["conc/main.cpp", "conc/c_lin.cpp", "conc/c_scan.cpp", "conc/c_phantom.cpp", "conc/c_gc.cpp", "conc/c_struct.cpp",
-                "conc/c_ddl.cpp", "conc/c_value.cpp", "conc/c_leak.cpp", "conc/c_cycle.cpp", "common/allocreg.cpp"]
+                "conc/c_ddl.cpp", "conc/c_value.cpp", "conc/c_leak.cpp", "conc/c_cycle.cpp", "conc/c_nodeinfo.cpp", "conc/c_collapse.cpp", "common/allocreg.cpp"]
 UNIT_SOURCES = ["unit/main.cpp", "unit/u_version.cpp", "unit/u_compare.cpp", "unit/u_perm.cpp", "common/allocreg.cpp"]
 SESS_SOURCES = ["sess/main.cpp", "common/allocreg.cpp"]
 
@@ -79,9 +79,13 @@ CHECKS = {
     },
     "C05": {
         "title": "node-version sets detect later inserts",
-        "quick": [run("seq_phantom", "seq-asan", mode="phantom", prop="C05", trees=600, reads=14, cands=10, repeat=4)],
+        "quick": [run("seq_phantom", "seq-asan", mode="phantom", prop="C05", trees=600, reads=14, cands=10, repeat=4),
+                  run("conc_postinsert_scan", "conc-plain", mode="phantom_micro", cursor=0, oracle="post", prop="C05", races=300000, repeat=2),
+                  run("conc_postinsert_iscan", "conc-plain", mode="phantom_micro", cursor=1, oracle="post", prop="C05", races=150000)],
         "thorough": [run("seq_phantom_memcheck", "seq-plain", mode="phantom", prop="C05", trees=150, reads=10, cands=8, wrapper="memcheck", repeat=4, timeout=3400),
-                     run("seq_phantom", "seq-asan", mode="phantom", prop="C05", trees=30000, reads=20, cands=14, repeat=16, timeout=3400)],
+                     run("seq_phantom", "seq-asan", mode="phantom", prop="C05", trees=30000, reads=20, cands=14, repeat=16, timeout=3400),
+                     run("conc_postinsert_scan", "conc-plain", mode="phantom_micro", cursor=0, oracle="post", prop="C05", races=30000000, repeat=4, timeout=3400),
+                     run("conc_postinsert_iscan", "conc-plain", mode="phantom_micro", cursor=1, oracle="post", prop="C05", races=10000000, repeat=2, timeout=3400)],
         "parallel": {"quick": 4, "thorough": 16},
     },
     "C06": {
@@ -98,29 +102,35 @@ CHECKS = {
     "C07": {
         "title": "memory handed out inside a session stays valid until leave",
         "quick": [run("conc_gc_plain", "conc-plain", mode="gc", prop="C07", sessions=3000, min_reclaims=3000, repeat=2),
-                  run("conc_gc_asan", "conc-asan", mode="gc", prop="C07", sessions=600, min_reclaims=600)],
+                  run("conc_gc_asan", "conc-asan", mode="gc", prop="C07", sessions=600, min_reclaims=600),
+                  run("conc_collapse_micro_asan", "conc-asan", mode="collapse_micro", prop="C07", rounds=25000, walk_every=0)],
         "thorough": [run("conc_gc_plain", "conc-plain", mode="gc", prop="C07", sessions=200000, min_reclaims=400000, repeat=3, timeout=3400),
                      run("conc_gc_e5", "conc-plain-e5", mode="gc", prop="C07", sessions=60000, min_reclaims=100000, stall_us=100000, timeout=3400),
                      run("conc_gc_e40", "conc-plain-e40", mode="gc", prop="C07", sessions=20000, min_reclaims=20000, stall_us=400000, timeout=3400),
-                     run("conc_gc_asan", "conc-asan", mode="gc", prop="C07", sessions=40000, min_reclaims=60000, timeout=3400, repeat=2)],
+                     run("conc_gc_asan", "conc-asan", mode="gc", prop="C07", sessions=40000, min_reclaims=60000, timeout=3400, repeat=2),
+                     run("conc_collapse_micro_asan", "conc-asan", mode="collapse_micro", prop="C07", rounds=1500000, walk_every=0, timeout=3400, repeat=2)],
         "parallel": {"quick": 1, "thorough": 2},
     },
     "C08": {
         "title": "tree coherence at quiescent points",
         "quick": [run("conc_struct_plain", "conc-plain", mode="struct", prop="C08", batches=250, repeat=2),
                   run("conc_struct_asan", "conc-asan", mode="struct", prop="C08", batches=40),
-                  run("seq_map", "seq-asan", mode="map", prop="C08", programs=600, ops=300)],
+                  run("seq_map", "seq-asan", mode="map", prop="C08", programs=600, ops=300),
+                  run("conc_collapse_micro", "conc-plain", mode="collapse_micro", prop="C08", rounds=100000, repeat=2)],
         "thorough": [run("conc_struct_plain", "conc-plain", mode="struct", prop="C08", batches=20000, repeat=6, timeout=3400),
                      run("conc_struct_asan", "conc-asan", mode="struct", prop="C08", batches=2500, repeat=2, timeout=3400),
-                     run("seq_map", "seq-asan", mode="map", prop="C08", programs=20000, ops=400, repeat=8, timeout=3400)],
+                     run("seq_map", "seq-asan", mode="map", prop="C08", programs=20000, ops=400, repeat=8, timeout=3400),
+                     run("conc_collapse_micro", "conc-plain", mode="collapse_micro", prop="C08", rounds=8000000, repeat=4, timeout=3400)],
         "parallel": {"quick": 1, "thorough": 2},
     },
     "C09": {
         "title": "operations complete: no deadlock, no lock left held",
         "quick": [run("conc_struct_progress", "conc-plain", mode="struct", prop="C09", batches=300, stall_s=20, hang_is_violation=True, timeout=300, repeat=2),
-                  run("conc_lin_progress", "conc-plain", mode="lin", prop="C09", rounds=3000, hang_is_violation=True, timeout=240)],
+                  run("conc_lin_progress", "conc-plain", mode="lin", prop="C09", rounds=3000, hang_is_violation=True, timeout=240),
+                  run("conc_collapse_micro", "conc-plain", mode="collapse_micro", prop="C09", rounds=150000, walk_every=0, stall_s=20, hang_is_violation=True, timeout=300, repeat=2)],
         "thorough": [run("conc_struct_progress", "conc-plain", mode="struct", prop="C09", batches=25000, stall_s=60, hang_is_violation=True, timeout=3400, repeat=6),
-                     run("conc_lin_progress", "conc-plain", mode="lin", prop="C09", rounds=300000, hang_is_violation=True, timeout=3400, repeat=2)],
+                     run("conc_lin_progress", "conc-plain", mode="lin", prop="C09", rounds=300000, hang_is_violation=True, timeout=3400, repeat=2),
+                     run("conc_collapse_micro", "conc-plain", mode="collapse_micro", prop="C09", rounds=15000000, walk_every=0, stall_s=60, hang_is_violation=True, timeout=3400, repeat=4)],
         "parallel": {"quick": 1, "thorough": 2},
     },
     "C10": {
@@ -150,9 +160,13 @@ CHECKS = {
     },
     "C12": {
         "title": "put reports exactly the borders whose version changed",
-        "quick": [run("seq_nodeinfo", "seq-asan", mode="nodeinfo", prop="C12", programs=250, puts=150, repeat=4)],
+        "quick": [run("seq_nodeinfo", "seq-asan", mode="nodeinfo", prop="C12", programs=250, puts=150, repeat=4),
+                  run("conc_nodeinfo", "conc-plain", mode="nodeinfo_conc", prop="C12", rounds=6000, repeat=2),
+                  run("conc_nodeinfo_asan", "conc-asan", mode="nodeinfo_conc", prop="C12", rounds=1000)],
         "thorough": [run("seq_nodeinfo_memcheck", "seq-plain", mode="nodeinfo", prop="C12", programs=60, puts=100, wrapper="memcheck", repeat=4, timeout=3400),
-                     run("seq_nodeinfo", "seq-asan", mode="nodeinfo", prop="C12", programs=12000, puts=200, repeat=16, timeout=3400)],
+                     run("seq_nodeinfo", "seq-asan", mode="nodeinfo", prop="C12", programs=12000, puts=200, repeat=16, timeout=3400),
+                     run("conc_nodeinfo", "conc-plain", mode="nodeinfo_conc", prop="C12", rounds=150000, repeat=8, timeout=3400),
+                     run("conc_nodeinfo_asan", "conc-asan", mode="nodeinfo_conc", prop="C12", rounds=30000, repeat=4, timeout=3400)],
         "parallel": {"quick": 4, "thorough": 16},
     },
     "C13": {
